@@ -21,7 +21,7 @@ class Property(Base):
         "translator T3 (gen_abi.py): the specification's view of the namespace (public WAT table, provider exports) is regenerated too",
         "hand transcription of TrampolineCodegen::new/apply and of the walrus calls it makes (imports.find / get_func = first match, add_import_* appends with a fresh arena id, replace_imported_func keeps the function id and deletes its import) in coq/theories/Tramp/Rewrite.v, validated on every run against the real tool (verdict, error class, whole import section of the result, number of generated functions)",
         "walrus 0.24.4 re-encodes function bodies, tables, data, globals and exports faithfully and renumbers memory/function indices after the insertion of the provider memory at index 0: NOT modelled (`rest` is opaque); observed by differential execution of original and rewritten module in wasmtime 38 (results, own-memory hash and size, globals, stub call log after instantiation = start behaviour and after every call)",
-        "wasmparser::validate at the end of apply() is not modelled (the model returns Ok where the tool could still answer `Validating output module failed`; the harness reports that verdict as a difference)",
+        "wasmparser::validate at the end of apply() is not modelled (the model returns Ok where the tool could still answer `Validating output module failed`; the harness reports that verdict as a difference); guests whose own memory is 64-bit (class mem64, which the i32-addressed glue cannot serve) are decided at the property level only: refused, or accepted with a valid result",
     ]
     assumptions = [
         "an API function name imported as a table/global/memory: the property does not say whether that must be refused; the specification accepts either verdict (class EITHER)",
@@ -61,7 +61,7 @@ class Property(Base):
         s = S[0].split(" ", 1)[1]
         sv, prefix = s.split(" PREFIX=")
         accepted = b.startswith("V=ACCEPT")
-        if not accepted and b.split()[1].startswith(("parse:", "other:", "invalid_output")):
+        if not accepted and cls != "mem64" and b.split()[1].startswith(("parse:", "other:", "invalid_output")):
             return f"[{cls}] the tool failed on a valid guest with an error outside its documented refusals: {b[:300]}"
         if sv == "REJECT" and accepted:
             return f"[{cls}] the tool accepted (and rewrote) a module the property says must be refused"
